@@ -21,6 +21,8 @@
 package scheduler
 
 import (
+	"sync"
+
 	"github.com/apache/yunikorn-core/pkg/handler"
 	"github.com/apache/yunikorn-core/pkg/metrics"
 	"github.com/apache/yunikorn-core/pkg/rmproxy/rmevent"
@@ -89,10 +91,15 @@ func (cc *ClusterContext) VerifStopManagers() {
 
 func (pc *PartitionContext) VerifStopManager() {
 	m := pc.partitionManager
-	defer func() { _ = recover() }()
-	close(m.stopCleanExpiredApps)
-	close(m.stopCleanRoot)
+	if _, done := verifStoppedManagers.LoadOrStore(m, true); done {
+		return
+	}
+	// a value is sent instead of closing the channels: partitionManager.Stop() must still be able to close them
+	m.stopCleanExpiredApps <- struct{}{}
+	m.stopCleanRoot <- struct{}{}
 }
+
+var verifStoppedManagers sync.Map
 
 // VerifCleanQueues runs one iteration of the queue cleaner of the partition manager.
 func (pc *PartitionContext) VerifCleanQueues() {
